@@ -298,6 +298,11 @@ func GridCases(thorough bool) []WriteCase {
 		add(0, model.StructV(model.Int64V(1).WithField(model.T(t))))
 		add(0, model.SexpV(model.SymV(model.T(t)), model.SymV(model.T(t))))
 	}
+	// a top-level symbol whose text is the version-marker text (text modes: it has to be quoted;
+	// in binary a top-level symbol with that id is left out, its status is not settled)
+	for _, m := range []int{ModeText, ModePretty} {
+		out = append(out, WriteCase{CaseSeed: 1, Mode: m, Vals: []*model.Value{model.Int64V(1), model.SymV(model.T("$ion_1_0")), model.SymV(model.T("$ion_1_0")).WithAnn(model.T("a"))}})
+	}
 	// nesting depth
 	depths := []int{1, 2, 5, 13, 14, 15, 40}
 	if thorough {
